@@ -95,21 +95,24 @@ def parseCallWith (rs : Resets) (pf : ParseFn) (pol : Policy) (s : Session) (exp
 
 def parseCall := parseCallWith Resets.all
 
+/-- what `list_names` yields when lexing starts in state `st`: the NAME token values, cut after
+    `limit` names if the generator is abandoned there, and the lexical error if it was reached -/
+def listNamesResult (st : LexSt) (expr : List Char) (limit : Option Nat) : List (List Char) × Option LexErr :=
+  let toksErr : List Token × Option LexErr :=
+    match lexFrom st expr with
+    | .ok (ts, _) => (ts, none)
+    | .error (e, pre) => (pre, some e)
+  let names := (toksErr.1.filter (·.ty == .NAME)).map (·.val)
+  match limit with
+  | none => (names, toksErr.2)
+  | some k => if k < names.length then (names.take k, none) else (names, toksErr.2)
+
 /-- `list(SqParser.list_names(expr))`, the generator consumed up to `limit` names (none = fully)
-    and then abandoned: the names yielded, and the lexical error if it was reached -/
+    and then abandoned -/
 def listNamesCallWith (rs : Resets) (s : Session) (expr : List Char) (limit : Option Nat) :
     (List (List Char) × Option LexErr) × Session :=
   let st := applyResets rs s.lex
-  let (toks, err, stEnd) : List Token × Option LexErr × LexSt :=
-    match lexFrom st expr with
-    | .ok (ts, st') => (ts, none, st')
-    | .error (e, pre) => (pre, some e, st)
-  let names := (toks.filter (·.ty == .NAME)).map (·.val)
-  match limit with
-  | none => ((names, err), { s with lex := stEnd })
-  | some k =>
-    if k < names.length then ((names.take k, none), { s with lex := stEnd })   -- abandoned midway
-    else ((names, err), { s with lex := stEnd })
+  (listNamesResult st expr limit, { s with lex := lexEndState st expr })
 
 def listNamesCall := listNamesCallWith Resets.all
 
